@@ -64,7 +64,7 @@ def _gen(g):
                 script.append([k, d, g.choice([-1, 0, 0, 1]), g.choice([0, 0, 1, 2]), g.chance(25)])
         actors.append(script)
     return {"config": g.choice(["S", "S", "E", "U"]), "fast": g.chance(25), "actors": actors,
-            "nest": g.choice([0, 0, 1, 2]), "adapter": g.chance(20)}
+            "nest": g.choice([0, 0, 1, 2]), "adapter": g.chance(20), "residue": g.chance(12)}
 
 
 _strategy = composite(_gen)
@@ -83,6 +83,7 @@ def run_case(case) -> Outcome:
 
     async def body(sim):
         sim.nest = case.get("nest", 0)
+        sim.residue = bool(case.get("residue"))
         lock = prebuilt if prebuilt is not None else Lock(fast_acquire=case["fast"])
         holder = [None]
         waiting = {}          # aid -> [seq, call_cycle]  acquire called, not yet returned/raised
